@@ -88,6 +88,7 @@ Fail == [k |-> "fail"]
 Res(t, rest) == [t |-> t, rest |-> rest]
 Hd(ts) == IF ts = <<>> THEN "EOF" ELSE Head(ts)
 Names == {"a", "b", "c", "m"}
+LitToks == {"1", "7", "true", "false", "nil", "\"s\""}      \* atoms of the other lexical classes: numbers, the three word literals, strings
 
 RECURSIVE PExpr(_), PLevel(_, _), PLoop(_, _, _), PUnary(_), PPostfix(_), PPostLoop(_, _), PAtom(_)
 PExpr(ts) ==                              \* level 1
@@ -133,7 +134,7 @@ PPostLoop(acc, ts) ==
                ELSE Res(Fail, <<>>))
     [] OTHER -> Res(acc, ts)
 PAtom(ts) ==
-  IF Hd(ts) \in Names THEN Res(Leaf(Hd(ts)), Tail(ts))
+  IF Hd(ts) \in Names \cup LitToks THEN Res(Leaf(Hd(ts)), Tail(ts))
   ELSE IF Hd(ts) = "[" /\ Hd(Tail(ts)) = "]" THEN Res(EList, Tail(Tail(ts)))
   ELSE IF Hd(ts) = "(" THEN (LET x == PExpr(Tail(ts)) IN IF x.t.k = "fail" \/ Hd(x.rest) # ")" THEN Res(Fail, <<>>) ELSE Res(x.t, Tail(x.rest)))
   ELSE Res(Fail, <<>>)
